@@ -22,6 +22,54 @@ class Impure(Exception):
     pass
 
 
+_J = z3.Int("j")
+
+
+def mk_lambda(jv, body):
+    """abstract the (unique) evaluation variable jv under the canonical name j: alpha-equivalent
+    element functions become syntactically equal"""
+    return z3.Lambda([_J], z3.substitute(body, (jv, _J)))
+
+
+def speceval_mentions(t, bvs):
+    from .speceval import _mentions
+    return _mentions(t, bvs)
+
+
+def _pattern_subterm(t, a, b):
+    """smallest select/application subterm mentioning both a and b and free of ite/arithmetic heads"""
+    best = [None, 10 ** 9]
+
+    def size(x):
+        return len(x.sexpr())
+
+    def ok(x):
+        bad = (z3.Z3_OP_ITE, z3.Z3_OP_ADD, z3.Z3_OP_SUB, z3.Z3_OP_MUL, z3.Z3_OP_AND, z3.Z3_OP_OR, z3.Z3_OP_NOT, z3.Z3_OP_EQ,
+               z3.Z3_OP_LE, z3.Z3_OP_LT, z3.Z3_OP_GE, z3.Z3_OP_GT, z3.Z3_OP_IMPLIES)
+        stack = [x]
+        while stack:
+            y = stack.pop()
+            if z3.is_quantifier(y):
+                return False
+            if z3.is_app(y):
+                if y.decl().kind() in bad:
+                    return False
+                stack.extend(y.children())
+        return True
+
+    def walk(x):
+        if not z3.is_app(x):
+            return
+        for c in x.children():
+            walk(c)
+        if x.num_args() > 0 and speceval_mentions(x, [a]) and speceval_mentions(x, [b]) and ok(x):
+            sz = size(x)
+            if sz < best[1]:
+                best[0], best[1] = x, sz
+    walk(t)
+    return best[0]
+
+
 def _strip(ex, mark, bvs):
     from .speceval import _mentions
     extra = ex.pc[mark:]
@@ -38,8 +86,21 @@ def canon(ex, key, maker):
     return c[key]
 
 
-def key_of(*terms):
-    return "|".join(z3.simplify(t).sexpr() if z3.is_expr(t) else str(t) for t in terms)
+_K = [z3.Int("k0"), z3.Int("k1")]
+HINT = z3.Function("hint", INT, BOOL)
+
+
+def key_of(*parts):
+    """canonical text of (bound vars, term) pairs: bound vars renamed to k0,k1"""
+    out = []
+    for p in parts:
+        if isinstance(p, tuple):
+            bvs, t = p
+            t = z3.substitute(t, *[(b, k) for b, k in zip(bvs, _K)])
+        else:
+            t = p
+        out.append(z3.simplify(t).sexpr())
+    return "|".join(out)
 
 
 def is_pure_expr(ex, node, fr):
@@ -123,15 +184,14 @@ def comp1(ex, elt, g, fr):
             ev_ = ex.ev(elt, fr)
             _strip(ex, mark, [j])
             et, comps = _comps(ev_)
-            arrs = [z3.Lambda([j], ex.coerce(c, ct).t) for c, ct in zip(comps, et.comps())]
+            arrs = [mk_lambda(j, ex.coerce(c, ct).t) for c, ct in zip(comps, et.comps())]
             return vlist(et, n, arrs, src=src_l)
         # filter
         i = z3.Int(f"ci!{next(ex.cnt)}")
         target_bind(ex, g.target, litem(ex, src_l, i), fr)
         cond_i = z3.And([ex.truth(ex.ev(c, fr)) for c in g.ifs])
         _strip(ex, mark, [i])
-        cond_lam = z3.Lambda([i], cond_i)
-        key = key_of(n, cond_lam)
+        key = key_of(n, ([i], cond_i))
 
         def mk():
             k = next(ex.cnt)
@@ -142,9 +202,12 @@ def comp1(ex, elt, g, fr):
         if isnew:
             a, b = z3.Int(f"a?{next(ex.cnt)}"), z3.Int(f"b?{next(ex.cnt)}")
             ex.assume(cnt(0) == 0)
-            ex.assume(z3.ForAll([a], z3.Implies(z3.And(0 <= a, a < n),
-                                                z3.And(cnt(a + 1) == cnt(a) + z3.If(C(a), 1, 0), cnt(a) >= 0, cnt(a + 1) <= a + 1)),
-                                patterns=[cnt(a + 1)]))
+            # one-step recurrence, instantiated only between two existing terms (no matching loop)
+            ex.assume(z3.ForAll([a, b], z3.Implies(z3.And(0 <= b, a == b + 1, a <= n),
+                                                   cnt(a) == cnt(b) + z3.If(C(b), 1, 0)),
+                                patterns=[z3.MultiPattern(cnt(a), cnt(b))]))
+            ex.assume(z3.ForAll([a, b], z3.Implies(z3.And(0 <= a, a <= b, b <= n), cnt(a) <= cnt(b)),
+                                patterns=[z3.MultiPattern(cnt(a), cnt(b))]))
             ex.assume(z3.ForAll([a], z3.Implies(z3.And(0 <= a, a <= n), z3.And(0 <= cnt(a), cnt(a) <= a, cnt(a) <= cnt(n))), patterns=[cnt(a)]))
             ex.assume(z3.ForAll([a], z3.Implies(z3.And(0 <= a, a < m),
                                                 z3.And(0 <= srcf(a), srcf(a) < n, C(srcf(a)), rank(srcf(a)) == a, cnt(srcf(a)) == a)),
@@ -160,7 +223,7 @@ def comp1(ex, elt, g, fr):
         ev_ = ex.ev(elt, fr)
         _strip(ex, mark2, [j])
         et, comps = _comps(ev_)
-        arrs = [z3.Lambda([j], ex.coerce(c, ct).t) for c, ct in zip(comps, et.comps())]
+        arrs = [mk_lambda(j, ex.coerce(c, ct).t) for c, ct in zip(comps, et.comps())]
         return vlist(et, m, arrs, src=src_l, srcf=srcf, rank=rank, cnt=cnt, cond=C)
     finally:
         for k, v in saved.items():
@@ -213,7 +276,7 @@ def comp2(ex, elt, gens, fr):
         ev_ = ex.ev(elt, fr)
         _strip(ex, mark, [a, b])
         et, comps = _comps(ev_)
-        key = key_of(m, z3.Lambda([a], ilen_a), z3.Lambda([a, b], cond_ab))
+        key = key_of(m, ([a], ilen_a), ([a, b], cond_ab))
 
         def mk():
             k = next(ex.cnt)
@@ -226,14 +289,23 @@ def comp2(ex, elt, gens, fr):
         if isnew:
             x, y, j, j2 = (z3.Int(f"{nm}?{next(ex.cnt)}") for nm in ("x", "y", "j", "k"))
             ex.assume(acc(0) == 0)
-            ex.assume(z3.ForAll([x], z3.Implies(z3.And(0 <= x, x < m), z3.And(acc(x + 1) == acc(x) + cin(x, IL(x)), IL(x) >= 0)),
-                                patterns=[acc(x + 1)]))
+            x2, y2 = z3.Int(f"x2?{next(ex.cnt)}"), z3.Int(f"y2?{next(ex.cnt)}")
+            ex.assume(z3.ForAll([x, x2], z3.Implies(z3.And(0 <= x2, x == x2 + 1, x <= m),
+                                                    z3.And(acc(x) == acc(x2) + cin(x2, IL(x2)), IL(x2) >= 0)),
+                                patterns=[z3.MultiPattern(acc(x), acc(x2))]))
+            ex.assume(z3.ForAll([x, x2], z3.Implies(z3.And(0 <= x2, x2 <= x, x <= m), acc(x2) <= acc(x)),
+                                patterns=[z3.MultiPattern(acc(x), acc(x2))]))
             ex.assume(z3.ForAll([x], z3.Implies(z3.And(0 <= x, x <= m), z3.And(0 <= acc(x), acc(x) <= total)), patterns=[acc(x)]))
-            ex.assume(z3.ForAll([x], cin(x, 0) == 0, patterns=[cin(x, 0)]))
-            ex.assume(z3.ForAll([x, y], z3.Implies(z3.And(0 <= x, x < m, 0 <= y, y < IL(x)),
-                                                   z3.And(cin(x, y + 1) == cin(x, y) + z3.If(C(x, y), 1, 0), cin(x, y) >= 0,
-                                                          cin(x, y + 1) <= cin(x, IL(x)))),
-                                patterns=[cin(x, y + 1)]))
+            if not g2.ifs:
+                ex.assume(z3.ForAll([x, y], cin(x, y) == y, patterns=[cin(x, y)]))
+            else:
+                ex.assume(z3.ForAll([x], cin(x, 0) == 0, patterns=[cin(x, 0)]))
+                ex.assume(z3.ForAll([x, y, y2], z3.Implies(z3.And(0 <= x, x < m, 0 <= y2, y == y2 + 1, y <= IL(x)),
+                                                           cin(x, y) == cin(x, y2) + z3.If(C(x, y2), 1, 0)),
+                                    patterns=[z3.MultiPattern(cin(x, y), cin(x, y2))]))
+                ex.assume(z3.ForAll([x, y], z3.Implies(z3.And(0 <= x, x < m, 0 <= y, y <= IL(x)),
+                                                       z3.And(0 <= cin(x, y), cin(x, y) <= y, cin(x, y) <= cin(x, IL(x)))),
+                                    patterns=[cin(x, y)]))
             ex.assume(z3.ForAll([j], z3.Implies(z3.And(0 <= j, j < total),
                                                 z3.And(0 <= oi(j), oi(j) < m, 0 <= ii(j), ii(j) < IL(oi(j)), C(oi(j), ii(j)),
                                                        pos(oi(j), ii(j)) == j)),
@@ -249,8 +321,17 @@ def comp2(ex, elt, gens, fr):
                                                     z3.Or(oi(j) < oi(j2), z3.And(oi(j) == oi(j2), ii(j) < ii(j2)))),
                                 patterns=[z3.MultiPattern(oi(j), oi(j2))]))
             ex.assume(total >= 0)
+            ex.assume(z3.Implies(total > 0, HINT(oi(0))))
+            # the element term is a second trigger of the pos axiom (a valid pair has a position)
+            e0 = _pattern_subterm(ex.coerce(comps[-1], et.comps()[-1]).t, a, b)
+            if e0 is not None and g2.ifs:
+                ex.assume(z3.ForAll([x, y], z3.Implies(z3.And(0 <= x, x < m, 0 <= y, y < IL(x), C(x, y)),
+                                                       z3.And(0 <= pos(x, y), pos(x, y) < total, oi(pos(x, y)) == x, ii(pos(x, y)) == y)),
+                                    patterns=[z3.substitute(e0, (a, x), (b, y))]))
+            # trigger hints (tautologies over an uninterpreted predicate): the last element
+            ex.assume(z3.Implies(z3.And(m > 0, IL(m - 1) > 0), z3.And(HINT(pos(m - 1, IL(m - 1) - 1)), HINT(acc(m - 1)))))
         jj = z3.Int(f"cj!{next(ex.cnt)}")
-        arrs = [z3.Lambda([jj], z3.substitute(ex.coerce(c, ct).t, (a, oi(jj)), (b, ii(jj)))) for c, ct in zip(comps, et.comps())]
+        arrs = [mk_lambda(jj, z3.substitute(ex.coerce(c, ct).t, (a, oi(jj)), (b, ii(jj)))) for c, ct in zip(comps, et.comps())]
         return vlist(et, total, arrs, oi=oi, ii=ii, pos=pos, acc=acc, cin=cin, outer=outer, ilen=IL, cond2=C)
     finally:
         for k, v in saved.items():
